@@ -482,3 +482,35 @@ func VH_C02_entry_points_time() {
 	zzverif.Assert(zzverif.EqualBytes(a, b) && zzverif.EqualBytes(a, c) && zzverif.EqualBytes(a, d) && zzverif.EqualBytes(a, f) && zzverif.EqualBytes(a, g), "a time encodes identically through Event, Context, Array, Fields, *time.Time and Times")
 	zzverif.Reach("C02/entry-points-time")
 }
+
+const vB64 = "ABCDEFGHIJKLMNOPQRSTUVWXYZabcdefghijklmnopqrstuvwxyz0123456789+/"
+
+// vRefBase64: RFC 4648 section 4 (standard alphabet, padded), written out independently.
+func vRefBase64(b []byte) []byte {
+	out := []byte{}
+	for i := 0; i+2 < len(b); i += 3 {
+		v := uint(b[i])<<16 | uint(b[i+1])<<8 | uint(b[i+2])
+		out = append(out, vB64[v>>18&63], vB64[v>>12&63], vB64[v>>6&63], vB64[v&63])
+	}
+	switch len(b) % 3 {
+	case 1:
+		v := uint(b[len(b)-1]) << 16
+		out = append(out, vB64[v>>18&63], vB64[v>>12&63], '=', '=')
+	case 2:
+		v := uint(b[len(b)-2])<<16 | uint(b[len(b)-1])<<8
+		out = append(out, vB64[v>>18&63], vB64[v>>12&63], vB64[v>>6&63], '=')
+	}
+	return out
+}
+
+// RawCBOR (JSON build): the documented data URL with the standard base64 of the payload, for
+// payload lengths around the 3-byte grouping and around 64 bytes.
+func VH_C02_rawcbor() {
+	n := []int{0, 1, 2, 3, 4, 63, 64, 65, 66, 130}[zzverif.Choice(10)]
+	b := zzverif.Bytes(n)
+	e := newEvent(nil, InfoLevel).RawCBOR("k", b)
+	got := vFrag(e.buf)
+	want := append(append([]byte(`"data:application/cbor;base64,`), vRefBase64(b)...), '"')
+	zzverif.Assert(zzverif.EqualBytes(got, want), "RawCBOR is logged as data:application/cbor;base64, followed by the standard padded base64 of the payload")
+	zzverif.Reach("C02/rawcbor")
+}
